@@ -177,6 +177,7 @@ func tempDirOf(c *TDCase) string {
 }
 
 func runTempDirImpl(in, out string) {
+	sp.InitLogError() // the library logs through package-level loggers that a workflow constructor would set up
 	f, err := os.Open(in)
 	if err != nil {
 		fmt.Fprintln(os.Stderr, err)
